@@ -2,6 +2,7 @@ import PyDBMLProofs.Props.C05
 import PyDBMLProofs.Props.C07
 import PyDBMLProofs.Props.C12
 import PyDBMLProofs.Props.C13
+import PyDBMLProofs.Props.C14
 import PyDBMLProofs.Props.C16
 import PyDBMLProofs.Props.C17
 import PyDBMLProofs.Props.C18
